@@ -33,10 +33,10 @@ class Subgrid:
             r = w.expand(e.value)
             rows = r.args[0] if (isinstance(r, ast.Call) and src(r.func) == 'Grid'
                                  and len(r.args) == 1) else None
-            if rows is not None and isinstance(rows, ast.ListComp) \
-                    and len(rows.generators) == 1 and isinstance(rows.elt, ast.ListComp) \
-                    and len(rows.elt.generators) == 1:
-                good.append((e, r, rows))
+            row = self._row(rows.elt) if rows is not None and isinstance(rows, ast.ListComp) \
+                and len(rows.generators) == 1 else None
+            if row is not None:
+                good.append((e, r, rows, row))
             else:
                 self.aliasing_returns.append((e, src(r)[:100]))
         self.returns_self = bool(self.aliasing_returns)
@@ -47,24 +47,69 @@ class Subgrid:
                     'Grid.subgrid rows are not a nested list comprehension: '
                     f'`{t}` (outside the grammar; freshness and order unknown)')
             raise AnalysisError(f'Grid.subgrid: {len(good)} comprehension returns')
-        _, r, rows = good[0]
+        _, r, rows, row = good[0]
         self.rows_expr = rows
         self.fresh_outer = True
         self.fresh_rows = True
-        og, ig = rows.generators[0], rows.elt.generators[0]
-        if og.ifs or ig.ifs or not isinstance(og.target, ast.Name) or \
-                not isinstance(ig.target, ast.Name):
+        og = rows.generators[0]
+        if og.ifs or not isinstance(og.target, ast.Name):
             raise AnalysisError('Grid.subgrid comprehension has filters / tuple targets')
-        self.outer_var, self.inner_var = og.target.id, ig.target.id
+        self.outer_var, (self.inner_var, inner_iter, elt) = og.target.id, row
         self.outer_range = self._range(og.iter)
-        self.inner_range = self._range(ig.iter)
-        elt = rows.elt.elt
-        if isinstance(elt, ast.IfExp):
-            self.cond = formula_of(elt.test)
-            self.inside_val, self.pad_val = elt.body, elt.orelse
-        else:
-            self.cond = None
-            self.inside_val, self.pad_val = elt, None
+        self.inner_range = self._range(inner_iter)
+        # the element is a decision tree over conditional expressions whose leaves are
+        # either a cell of this grid or a padding object
+        self.elt = elt
+        leaves = self._leaves(elt)
+        cells = [l for l in leaves if self._is_cell(l)]
+        pads = [l for l in leaves if not self._is_cell(l)]
+        if len({src(c) for c in cells}) != 1:
+            raise AnalysisError(f'Grid.subgrid element `{src(elt)[:80]}` does not read one cell '
+                                f'of this grid')
+        self.inside_val = cells[0]
+        self.pad_vals = pads
+        self.pad_val = pads[0] if pads else None
+        # test(row, col): the element is the cell (not padding)
+        self.test = self._inside_test(elt) if pads else None
+        self.cond = formula_of(self.test) if self.test is not None else None
+
+    def _row(self, e: ast.AST):
+        """(inner variable, inner iterable, element) of a row expression: a comprehension, or
+        a conditional choice between comprehensions over the same iterable"""
+        if isinstance(e, ast.ListComp) and len(e.generators) == 1 and \
+                not e.generators[0].ifs and isinstance(e.generators[0].target, ast.Name):
+            g = e.generators[0]
+            return g.target.id, g.iter, e.elt
+        if isinstance(e, ast.IfExp):
+            a, b = self._row(e.body), self._row(e.orelse)
+            if a is None or b is None or src(a[1]) != src(b[1]):
+                return None
+            var = a[0] if not a[0].startswith('_') else b[0]
+            import copy
+            from .inline import _Rename
+            ea = _Rename({a[0]: var}).visit(copy.deepcopy(a[2]))
+            eb = _Rename({b[0]: var}).visit(copy.deepcopy(b[2]))
+            if var in {n.id for n in ast.walk(e.test) if isinstance(n, ast.Name)}:
+                return None
+            return var, a[1], ast.IfExp(e.test, ea, eb)
+        return None
+
+    def _leaves(self, e: ast.AST) -> List[ast.AST]:
+        if isinstance(e, ast.IfExp):
+            return self._leaves(e.body) + self._leaves(e.orelse)
+        return [e]
+
+    @staticmethod
+    def _is_cell(v: ast.AST) -> bool:
+        t = v
+        while isinstance(t, ast.Subscript):
+            t = t.value
+        return isinstance(v, ast.Subscript) and src(t) in ('self.objects', 'self')
+
+    def _inside_test(self, e: ast.AST) -> ast.AST:
+        if isinstance(e, ast.IfExp):
+            return ast.IfExp(e.test, self._inside_test(e.body), self._inside_test(e.orelse))
+        return ast.Constant(self._is_cell(e))
 
     def _range(self, it: ast.AST) -> Tuple[str, Aff, Aff]:
         """(axis, first, last) of the iterated coordinates, in area symbols"""
